@@ -43,6 +43,7 @@ func subjects() []subject {
 		{"object with defaults", ukit.WrapScope(ukit.MapObjA("A")), false},
 		{"struct-mapped with sub-object defaults", ukit.WrapScope(ukit.ShapeSpecs()[5]), false},
 		{"struct-mapped with defaulted sub-object", ukit.WrapScope(nestWithDefault), false},
+		{"struct-mapped three levels deep with defaulted middle object", ukit.WrapScope(ukit.DeepShapeSpec()), false},
 		{"references", ss[0], false},
 		{"recursive references", ss[2], false},
 		{"one-of over references", ss[4], false},
